@@ -96,7 +96,10 @@ def handle : Handler := fun op inp =>
       let keys ← natList (fieldD inp "keys" (Json.arr #[]))
       let sched ← asList natList (← field inp "sched")
       let exit ← intList (← field inp "exit")
-      return jOutcome (exec st.container { nItems, nProc, keyOf := nthNat keys, exit := nth exit 0 }
+      let blocked ← natList (fieldD inp "blocked" (Json.arr #[]))
+      return jOutcome (exec st.container
+        { nItems, nProc, keyOf := nthNat keys, exit := nth exit 0,
+          blocked := fun w => blocked.contains w }
         st.prog { sched := sched })
   | "procs.stages" => some do
       return jList jStage CTM.Generated.stages
